@@ -177,7 +177,7 @@ ORACLES = [
         classify=classify,
         known_models=KNOWN_MODELS,
         quick=96,
-        thorough=60,
+        thorough=200,
         shrink_seconds=240,
     ),
     Oracle(
@@ -186,7 +186,7 @@ ORACLES = [
         check_history,
         classify=classify,
         quick=0,
-        thorough=4,
+        thorough=8,
         shrink_seconds=240,
     ),
     Oracle(
@@ -200,7 +200,7 @@ ORACLES = [
         check_history,
         classify=classify,
         quick=0,
-        thorough=2,
+        thorough=3,
         shrink_seconds=240,
     ),
     Oracle(
